@@ -176,14 +176,15 @@ def judge(r):
         return False, "backend %s lacks %s" % (exp, r["iface"])
     if not r.get("inv", True):
         return False, "backend %s: fieldinverse is not an inverse modulo the reported modulus" % exp
-    if r["env"] == "bogus" and not r.get("reported_unknown"):
+    if r["env"] not in (None, "noqap") and r["env"] not in NAME2MOD and not r["pre"] and not r.get("reported_unknown"):
         return False, "unknown backend name not reported"
     return True, ""
 
 
 def rows():
     rs = [(None, ())]
-    for n in list(NAME2MOD) + ["bogus", "libsnark"]:
+    # (near misses of known names are unknown names: no prefix / case-insensitive matching)
+    for n in list(NAME2MOD) + ["bogus", "libsnark", "snarkjsx", "nobackend_", "zkinterface2", "SNARKJS"]:
         rs.append((n, ()))
     for n, m in NAME2MOD.items():
         rs.append((None, (m,)))
